@@ -185,3 +185,86 @@ def declare_c15(E):
     c = E.contracts["paramiko.packet.Packetizer.read_message"]
     c["ghost"] = {"ptype": "result[0]", "seqno": "result[1].seqno", "got_message": "True"}
     E.declare_ghost(ptype="int", seqno="int", got_message="bool")
+
+
+def declare_c18(E):
+    """client-mode transport: server-initiated global requests / channel opens / channel requests"""
+    from contracts import message, channel as chan_contracts
+    message.declare(E)
+    declare(E)
+    chan_contracts.declare(E)
+    message.light_readers(E)
+    E.inline("paramiko.message.Message.add", "paramiko.message.Message._add")
+    E.declare_ghost(consult_count="int", sent_count="int", last_sent="bytes", channels_created="int", user_sent="bytes",
+                    user_sent_count="int", handler_calls="int")
+    E.declare_class("paramiko.transport.Transport", {
+        "server_object": "opt[opaque:Server]", "_x11_handler": "opt[callable]", "_forward_agent_handler": "opt[callable]",
+        "_tcp_handler": "opt[callable]", "default_window_size": "u32", "default_max_packet_size": "u32",
+        "channels_seen": "opaque:SeenMap", "_channels": "obj:ChannelMap"})
+    RA = {"EOFError": "True", "OSError": "True", "SSHException": "True"}
+    E.contract(T + "_send_message", params={"data": "obj:Message"}, returns="none",
+               ghost={"sent_count": "ghost('sent_count') + 1", "last_sent": "data.packet.getvalue()"}, raises=dict(RA), modifies=[])
+    E.contract(T + "_send_user_message", params={"data": "obj:Message"}, returns="none",
+               ghost={"user_sent_count": "ghost('user_sent_count') + 1", "user_sent": "data.packet.getvalue()"},
+               raises=dict(RA), modifies=[])
+    for n in ("check_port_forward_request", "cancel_port_forward_request", "check_global_request",
+              "check_channel_direct_tcpip_request", "check_channel_request", "check_channel_pty_request",
+              "check_channel_shell_request", "check_channel_env_request", "check_channel_exec_request",
+              "check_channel_subsystem_request", "check_channel_window_change_request", "check_channel_x11_request",
+              "check_channel_forward_agent_request"):
+        E.contract("Server." + n, argnames=["self", "a", "b", "c", "d", "e", "f"],
+                   returns="union[bool,int]" if n.startswith("check_port") else ("int" if n in ("check_channel_request", "check_channel_direct_tcpip_request") else "bool"),
+                   ghost={"consult_count": "ghost('consult_count') + 1"})
+    E.contract(T + "_next_channel", returns="u24", modifies=["self._channel_counter"])
+    E.contract("paramiko.channel.Channel.__init__", returns="none", ghost={"channels_created": "ghost('channels_created') + 1"})
+    for n in ("_set_transport", "_set_window", "_set_remote_channel"):
+        E.contract("paramiko.channel.Channel." + n, returns="none")
+    E.contract("paramiko.transport.ChannelMap.put", returns="none")
+    E.contract("SeenMap.__setitem__", argnames=["self", "k", "v"], returns="none")
+    E.contract(T + "_queue_incoming_channel", returns="none")
+    E.opaque_contracts["callable"] = dict(argnames=["self", "a", "b", "c"], returns="none",
+                                          raises={"Exception": {"when": "True", "ghost": {"handler_calls": "ghost('handler_calls') + 1"}}},
+                                          ghost={"handler_calls": "ghost('handler_calls') + 1"})
+    E.contract(T + "_parse_global_request", params={"m": "obj:Message"},
+               requires={"msg_pos": "0 <= m.packet.tell() and m.packet.tell() <= len(m.packet.getvalue())"},
+               ensures={
+                   "client_never_consults_anything": "implies(not self.server_mode, ghost('consult_count') == old(ghost('consult_count')))",
+                   "client_answers_only_REQUEST_FAILURE":
+                       "implies(not self.server_mode, (ghost('sent_count') == old(ghost('sent_count')) + 1 and ghost('last_sent') == b'\\x52')"
+                       " if local('want_reply', False) else ghost('sent_count') == old(ghost('sent_count')))",
+               },
+               returns="none", raises=dict(RA, UnicodeDecodeError="True", AttributeError="self.server_mode and isnone(self.server_object)"),
+               modifies=None)
+    ENABLED = ("((local('kind', '') == 'x11' and notnone(self._x11_handler))"
+               " or (local('kind', '') == 'auth-agent@openssh.com' and notnone(self._forward_agent_handler))"
+               " or (local('kind', '') == 'forwarded-tcpip' and notnone(self._tcp_handler)))")
+    E.contract(T + "_parse_channel_open", params={"m": "obj:Message"},
+               requires={"msg_pos": "0 <= m.packet.tell() and m.packet.tell() <= len(m.packet.getvalue())",
+                         "client_mode": "not self.server_mode"},
+               held=[],
+               ensures={
+                   "client_creates_a_channel_only_for_a_kind_it_enabled":
+                       "implies(not self.server_mode and ghost('channels_created') != old(ghost('channels_created')), %s)" % ENABLED,
+                   "client_never_consults_a_server_object": "implies(not self.server_mode, ghost('consult_count') == old(ghost('consult_count')))",
+                   "otherwise_refused_with_OPEN_FAILURE_administratively_prohibited":
+                       "implies(not self.server_mode and not %s, ghost('channels_created') == old(ghost('channels_created'))"
+                       " and ghost('sent_count') == old(ghost('sent_count')) + 1 and ghost('last_sent')[0:1] == b'\\x5c'"
+                       " and ghost('last_sent')[5:9] == pack32(1))" % ENABLED,
+               },
+               returns="none", raises=dict(RA, UnicodeDecodeError="True", Exception="ghost('handler_calls') != old(ghost('handler_calls'))",
+                                           AttributeError="self.server_mode and isnone(self.server_object)"),
+               modifies=None)
+    E.declare_class("paramiko.channel.Channel", {"status_event": "opaque:Event", "exit_status": "int", "event": "opaque:Event",
+                                                 "event_ready": "bool"})
+    E.contract("paramiko.channel.Channel._handle_request", params={"m": "obj:Message"},
+               requires={"msg_pos": "0 <= m.packet.tell() and m.packet.tell() <= len(m.packet.getvalue())",
+                         "no_server_object": "isnone(self.transport.server_object)"},
+               ensures={
+                   "without_a_server_object_nothing_is_consulted":
+                       "implies(isnone(self.transport.server_object), ghost('consult_count') == old(ghost('consult_count')))",
+                   "without_a_server_object_commands_shells_subsystems_terminals_are_refused":
+                       "implies(isnone(self.transport.server_object) and local('want_reply', False)"
+                       " and local('key', '') != 'exit-status' and local('key', '') != 'xon-xoff',"
+                       " ghost('user_sent_count') == old(ghost('user_sent_count')) + 1 and ghost('user_sent')[0:1] == b'\\x64')",
+               },
+               returns="none", raises=dict(RA, UnicodeDecodeError="True"), modifies=None)
